@@ -1001,7 +1001,7 @@ func (e *Exec) callBuiltin(th *Thread, caller *Frame, site ssa.Instruction, b *s
 			return ""
 		}
 		if p.Arr == nil || !p.Idx.IsConst() {
-			panic(unsupported("unsafe.String of non-slice pointer"))
+			panic(unsupported(fmt.Sprintf("unsafe.String of non-slice pointer (arr=%v) stack=%s", p.Arr != nil, e.stack(caller))))
 		}
 		bs := make([]*smt.Term, n)
 		for i := range bs {
